@@ -33,4 +33,5 @@ Next == Step
 
 ASSUME SizesAgree
 ASSUME PathsReachTarget
+ASSUME ReaderWriterAgree
 =============================================================================
